@@ -752,6 +752,11 @@ func (tr *Trans) topEnv(post *State) *Env {
 	}
 	// free variables of closures by name
 	for fv, v := range tr.freeVars {
+		if v.Addr != nil && v.Addr.Kind == AddrCell && len(v.C) == 0 && post != nil {
+			// a variable captured by reference: the name denotes what the cell holds now
+			env.vars[fv.Name()] = tr.readCell(post, v.Addr.Key, v.Addr.T)
+			continue
+		}
 		env.vars[fv.Name()] = v
 	}
 	return env
